@@ -365,7 +365,7 @@ class Streams:
             if want != first or not (sm == "ok"):
                 self.disagree("convert_mul_max_to_abs_or_lrelu",
                               f"{dtn} q={q} zp_c={zpc} scale={s_c} (c={creal:.6g}) x: zp={zp} scale={s_x}: model '{want}', real '{first}' -> {kind}",
-                              {"stream": "mulmax", "case": c, "request": rq, "semantic_request": sq[:400]}, sm, key=key)
+                              {"stream": "mulmax", "case": c, "request": rq, "semantic_request": sq}, sm, key=key)
 
 
     # ---- 2. PAD folded into hardware padding ------------------------------------------------------
@@ -691,7 +691,7 @@ class Streams:
             self.nontrivial.add(("dw2conv",) + desc)
             if m != real or sm.startswith("fail") or sm.startswith("err"):
                 self.disagree("convert_depthwise_to_conv", f"mult/ifm depth/ofm depth/kernel {desc}: model '{m}', real '{real}'",
-                              {"stream": "dw2conv", "case": desc, "request": rq, "semantic_request": (sq or "")[:300]}, sm)
+                              {"stream": "dw2conv", "case": desc, "request": rq, "semantic_request": sq}, sm)
 
 
     # ---- 5b. width-folded strided convolution (fixup_strided_conv): semantic check of the real output -----------
@@ -776,7 +776,7 @@ class Streams:
                 ck.count("rw_sconv_real_raises")
             if real.startswith("?") or sm.startswith("fail") or sm.startswith("err") or real.startswith("raises"):
                 self.disagree("fixup_strided_conv", f"H,W,C,kh,kw,O,sy,sx,pad,pos={desc}: real '{real}'",
-                              {"stream": "sconv", "case": desc, "semantic_request": (sq or "")[:600]}, sm, key=key if sm.startswith("fail") else None)
+                              {"stream": "sconv", "case": desc, "semantic_request": sq}, sm, key=key if sm.startswith("fail") else None)
 
 
     # ---- 7. dilation above 2 in software (fixup_dilation_gt2) -------------------------------------------------------
@@ -842,7 +842,7 @@ class Streams:
                 key = "software-dilation:inserted-taps-zero-instead-of-weight-zero-point"
             if m != real or sm.startswith("fail") or sm.startswith("err"):
                 self.disagree("fixup_dilation_gt2", f"kind,dtype,H,W,C,kh,kw,O,dh,dw,weight zp={desc}: model '{m}', real '{real}'",
-                              {"stream": "dilation", "case": desc, "request": rq, "semantic_request": (sq or "")[:400]}, sm, key=key)
+                              {"stream": "dilation", "case": desc, "request": rq, "semantic_request": sq}, sm, key=key)
 
     # ---- driver ------------------------------------------------------------------------------------
     def run(self):
